@@ -146,6 +146,7 @@ int main(void) {
 			else fputs("BADOP", stdout);
 			fputc('\n', stdout);
 			fflush(stdout);
+			HARNESS_GCOV_DUMP();
 			_exit(0);
 		}
 		waitpid(pid, &status, 0);
